@@ -405,6 +405,76 @@ def build() -> dict:
     }
 
 
+
+# ---- texts brought up to date after the extension rounds (builder reports); the tuples above keep the history
+def _upd(pid, text=None, note_add=None, tech=None):
+    t, n, k, r = CLAIMED[pid]
+    CLAIMED[pid] = (text or t, n + (" " + note_add if note_add else ""), tech or k, r)
+
+
+_upd(
+    "C01",
+    "PARTIAL. Per rewrite rule, a Lean theorem says the old and the new code observe the same value (with type) or raise-or-not — the truth "
+    "value in condition position — for ALL operand values of the declared classes (strings, ints and lists of any length, by induction): "
+    "77 value-level rows of 27 checks (FURB102, 108-110, 112, 114, 115, 119, 121, 123, 124, 136, 143, 145, 149, 161, 168, 169, 171, 183, "
+    "188, 192; e.g. bin(x).count('1') = x.bit_count() for every int via popcount = number of '1' digits, sorted(x)[0]/[-1] = min/max for "
+    "int lists of any length) and 18 statement-level rows of 12 checks on a block language with big-step semantics (FURB109, 113, 125, "
+    "126, 128, 131, 133, 138, 148, 160, 186-188; control-flow and loop rules for ARBITRARY blocks via loop invariants). Seven further rows "
+    "(FURB116 bin/oct/hex(x)[2:], FURB188 removesuffix in both forms, FURB192 sorted(x)[-1] / reverse) are false on part of the domain "
+    "refurb accepts: each is refuted by a witness AND proved under the guard that makes it true (non-negative ints, non-empty suffix, int "
+    "lists); nine refuted variants remain (NaN, -0.0, tuple.copy(), bool/int ties, a later read of a removed name, ...). Nine tables "
+    "inside the checks are regenerated from the source and tied to the rows by decide. On every run each row is linted (refurb must "
+    "propose exactly that rewrite), the model's eval/execBlock is compared with CPython (4.6k + 1.3k cases quick, 30k + 6k thorough) and "
+    "CPython itself must not separate old from new on a proved row. NOT proved (executed only, by a rewrite-and-execute oracle over ~185 "
+    "expression idioms, ~170 statement / file-system cases, look-alike user classes, ~500 single-edit and hand-written near misses): the "
+    "checks whose behaviour lives in the standard library, the OS or user classes.",
+    "Lists are values in the model (no aliasing): FURB186/187 are proved for the rebound name only; that the in-place forms are visible "
+    "through an alias is the recorded finding C01-inplace-rewrites-alias. str() of whole floats >= 1e16 and of containers is marked NOT "
+    "MODELLED.",
+)
+_upd(
+    "C03",
+    "PARTIAL. Proved: (a) dispatch totality — every node class the installed mypy can hand to a visitor has an overload in refurb's accept "
+    "(tables regenerated at run time); (b) the control flow of main() + run_refurb() modelled per file (early exits; one visitor per file; "
+    "suppress per accept; finally; noqa re-read of diagnosed files; sort/format/print; exit rule), for any number of files and any fault "
+    "pattern: main() returns 0/1 or lets an exception escape; it always returns iff the handler table has no uncaught cell; a "
+    "RecursionError in one file leaves exactly every other file's diagnostics and that file's own pre-cut ones, each attributed to its own "
+    "file; a TypeError/ImportError after the build leaves one bare line, exit 1, no diagnostic; stdout holds only diagnostics, error lines, "
+    "the hint (and --debug dumps); exit 0 iff nothing printed; no temp file left. The 143-cell handler table (11 steps x 13 exception "
+    "kinds) is regenerated by fault injection from real runs and proved equal to the hand-written try/except nesting (cells_eq_nesting); "
+    "the full clean-verdict statement is refuted for today's table (an OSError on the noqa re-read escapes). The model is compared with "
+    "134 (680 thorough) real main() runs with single and multi faults, natural failures and files cut short by the recursion limit. NOT "
+    "proved: that no check body raises on any tree — that part is a crash SEARCH (labelled as such): refurb's sources, stdlib sample, "
+    "all-node-kinds corpus, AST mutants and single-site call/string variants of every idiom file, ~80 ill-typed operands under every "
+    "operand template, typing states, encodings/layouts, deep nesting, degenerate command lines, every seen message re-rendered in the "
+    "colour and GitHub formats, with the clean-verdict oracle.",
+    "The patch points of the fault injection are taken to be the steps of main(); `# noqa` filtering itself is C08's subject; the "
+    "exit-1-under---debug case is recorded under C13.",
+    "Lean 4 proof (decide over regenerated dispatch tables; control-flow model + shape invariant by induction over the file list; decide over a by-injection handler table) + model-vs-real multi-fault runs + crash search",
+)
+_upd(
+    "C10",
+    "Theorem (selection_is_filter): for ANY catalogue of checks modelled as state machines with private state, any selection by code, any "
+    "number of visited nodes and any noqa/amend filter, the report with a subset enabled equals the full report filtered to that subset — "
+    "same diagnostics, same order; ignoring afterwards = never enabling. Its premise is discharged for today's 93 check modules by decide "
+    "over locality facts regenerated from the source (allow-lists per (module, use), justified). WHOLE RUN: refurb.main.main() from argv "
+    "and config file to stdout and exit status is modelled as ONE function composed only from the component models (settings, selection "
+    "ladder, # noqa / amend filter with the real path algebra, stable sort, formatters, exit status), and proved for any number of files, "
+    "diagnostics and checks: a run with fewer checks prints exactly the larger run's items of its loaded checks in the same order, down "
+    "to stdout lines (run_selection_is_filter/_output/_lines); --ignore CODE is indistinguishable from the check not existing; exit status "
+    "1 exactly when a diagnostic or error line is printed; a bare # noqa removes exactly the diagnostics of its line; permuting the file "
+    "arguments changes nothing. The model's stdout and exit status are compared BYTE FOR BYTE with 162 (2010 thorough) real CLI runs "
+    "(options split between argv and pyproject.toml, file orders, --sort/--format/--quiet/--verbose/--debug, 12 shapes of # noqa, amend "
+    "tables, six failure kinds), all predicted from ONE instrumented all-checks run; plus CLI subset runs over refurb's own idiom corpus "
+    "(partition, singletons incl. directed ones for checks whose module looks outside itself, complements, --ignore).",
+    "mypy's part (files built, failure lines, tree dumps) and the raw diagnostics of every check are inputs of the whole-run model; a "
+    "diagnostic's class is identified by prefix+code; not modelled there: Path.resolve() failing for the checked file itself, the "
+    "help/version/explain/gen texts, --timing-stats.",
+    "Lean 4 proof (induction; stable-sort/filter commutation; refinement by composition of component models) + locality table by ast scan (decide +kernel) + byte-level model-vs-CLI correspondence + CLI subset oracle",
+)
+_upd("C05", None, "FURB190 (which by design also accepts Any/unknown) is instantiated through a generic helper so that the lambda's parameter takes the operand's type; its Any/unknown verdicts are a recorded finding.")
+_upd("C15", None, "Code guarded by sys.version_info is part of the sweep: diagnostics that need resolved names/types are lost in a branch the higher target makes dead (mypy does not analyse it) — recorded finding; anything else lost is reported.")
+
 def main() -> int:
     m = build()
     (VERIF / "MANIFEST.json").write_text(json.dumps(m, indent=1, ensure_ascii=False) + "\n")
